@@ -36,7 +36,7 @@ TStep ==
             ELSE /\ failed' = failed \cup {[line |-> l, msg |-> r.msg]}
                  /\ l' = IF "cont" \in DOMAIN r /\ r.cont THEN l + 1      \* self-contained events: go on
                          ELSE NextReset(l + 1)                            \* stateful: skip the rest of this execution
-                 /\ st' = StInit
+                 /\ st' = IF "cont" \in DOMAIN r /\ r.cont THEN st ELSE StInit
                  /\ UNCHANGED done
 
 TFinish ==
